@@ -7,7 +7,8 @@ Ltac simp :=
   repeat match goal with x := _ |- _ => subst x end;
   cbn [chans senders subs streams adds drops tasks reader socket incoming dead cloned
        with_chans with_senders with_subs with_streams with_adds with_drops with_tasks with_reader with_socket with_incoming
-       with_dead with_cloned set_chan bury rm_sender mk_stream got_more add_at s_rule s_ch s_from s_got a_rule a_q a_pc] in *.
+       with_dead with_cloned set_chan bury mk_stream got_more add_at s_rule s_ch s_from s_got a_rule a_q a_pc] in *;
+  autorewrite with rms in *.
 
 Ltac rm_frame :=
   match goal with Hr : rm_apply _ _ = _ |- _ =>
@@ -23,41 +24,45 @@ Proof.
   intros H. unfold chan_at, close_all. cbn [chans with_chans]. rewrite (nth_map_combine_seq _ _ _ (new_chan 1)) by assumption. reflexivity.
 Qed.
 
-Definition same_or_closed (a b : chan item) : Prop := b = a \/ b = close a.
+(* same receivers and same log: only the capacity or the closed flag may differ *)
+Definition same_or_closed (a b : chan item) : Prop := rcv b = rcv a /\ log b = log a.
 
 Lemma soc_cursor a b id : same_or_closed a b -> cursor b id = cursor a id.
-Proof. intros [->| ->]; reflexivity. Qed.
+Proof. intros [H _]. unfold cursor. now rewrite H. Qed.
 Lemma soc_log a b : same_or_closed a b -> log b = log a.
-Proof. intros [->| ->]; reflexivity. Qed.
+Proof. intros [_ H]. exact H. Qed.
 Lemma soc_rcv a b : same_or_closed a b -> rcv b = rcv a.
-Proof. intros [->| ->]; reflexivity. Qed.
+Proof. intros [H _]. exact H. Qed.
 Lemma soc_tail a b : same_or_closed a b -> tail b = tail a.
-Proof. intros [->| ->]; reflexivity. Qed.
+Proof. intros [_ H]. unfold tail. now rewrite H. Qed.
+Lemma soc_refl a : same_or_closed a a.  Proof. split; reflexivity. Qed.
+Lemma soc_close a : same_or_closed a (close a).  Proof. split; reflexivity. Qed.
+Lemma soc_grow a n : same_or_closed a (grow n a).  Proof. split; reflexivity. Qed.
 
 Lemma rm_apply_chan s r s1 o c : rm_apply s r = (s1, o) -> same_or_closed (chan_at s c) (chan_at s1 c).
 Proof.
-  intros H. apply rm_apply_spec in H. destruct H; try (left; reflexivity).
+  intros H. apply rm_apply_spec in H. destruct H; try apply soc_refl.
   destruct (Nat.eq_dec c (e_ch e)) as [->|Hne].
   - destruct (Nat.lt_ge_cases (e_ch e) (length (chans s))) as [Hlt|Hge].
-    + right. now rewrite chan_at_set_same.
-    + left. unfold chan_at, set_chan. cbn. rewrite !nth_overflow; rewrite ?length_upd; try lia. reflexivity.
-  - left. now rewrite chan_at_set_other.
+    + rewrite chan_at_set_same by assumption. apply soc_close.
+    + unfold chan_at, set_chan. cbn. rewrite !nth_overflow; rewrite ?length_upd; try lia. apply soc_refl.
+  - rewrite chan_at_set_other by assumption. apply soc_refl.
 Qed.
 
 Lemma rm_sender_chan s r c c' : same_or_closed (chan_at s c') (chan_at (rm_sender s r c) c').
 Proof.
   unfold rm_sender. destruct (Nat.eq_dec c' c) as [->|Hne].
   - destruct (Nat.lt_ge_cases c (length (chans s))) as [Hlt|Hge].
-    + right. now rewrite chan_at_set_same.
-    + left. unfold chan_at, set_chan. cbn. rewrite !nth_overflow; rewrite ?length_upd; try lia. reflexivity.
-  - left. now rewrite chan_at_set_other.
+    + rewrite chan_at_set_same by assumption. apply soc_close.
+    + unfold chan_at, set_chan. cbn. rewrite !nth_overflow; rewrite ?length_upd; try lia. apply soc_refl.
+  - rewrite chan_at_set_other by assumption. apply soc_refl.
 Qed.
 
 Lemma close_all_chan s c : same_or_closed (chan_at s c) (chan_at (with_chans s (close_all s)) c).
 Proof.
   destruct (Nat.lt_ge_cases c (length (chans s))) as [Hlt|Hge].
-  - rewrite chan_at_close_all by assumption. destruct (mem_nat c (map snd (senders s))); [now right | now left].
-  - left. unfold chan_at. cbn. rewrite !nth_overflow; rewrite ?length_close_all; try lia. reflexivity.
+  - rewrite chan_at_close_all by assumption. destruct (mem_nat c (map snd (senders s))); [apply soc_close | apply soc_refl].
+  - unfold chan_at. cbn. rewrite !nth_overflow; rewrite ?length_close_all; try lia. apply soc_refl.
 Qed.
 
 (* ---- who owns the receivers ---- *)
@@ -287,8 +292,8 @@ Proof.
       destruct (Nat.eq_dec c (length (chans s))) as [->|Hne].
       * rewrite chan_at_app_new in *. unfold cursor, subscribe, with_rcv, new_chan in Hcur. cbn in Hcur.
         destruct (Nat.eqb sid id) eqn:E; [|discriminate]. apply Nat.eqb_eq in E. subst id. inversion Hcur; subst p. split; [lia|].
-        right. exists (a_rule a). exists (add_at a (A2 (length (chans s)))). rewrite lookup_put_same. repeat split.
-      * rewrite chan_at_app_old in * by lia. destruct (Icur _ _ _ ltac:(lia) Hcur) as [Hp Ho]. split; [exact Hp|].
+        right. exists (a_rule a). unfold a2. tsimp. exists (add_at a (A2 (length (chans s)))). rewrite lookup_put_same. repeat split.
+      * assert (Hc' : c < length (chans s)) by lia. rewrite chan_at_app_old in * by assumption. destruct (Icur _ _ _ Hc' Hcur) as [Hp Ho]. split; [exact Hp|].
         destruct Ho as [Ho|(r' & Ha)]; [now left | right]. exists r'. eapply a2_fwd_put; [reflexivity | | exact Ha].
         intros a0 Ha0 c0. rewrite H in Ha0. inversion Ha0; subst. congruence.
     + intros sid' st' Hl'. tsimp. destruct (Istr _ _ Hl') as (Hc' & (p & Hp) & Hn). rewrite app_length. cbn [length]. split; [lia|]. split; [|assumption].
@@ -324,7 +329,7 @@ Proof.
         destruct Ho as [(st' & Hs' & Hc')|Ho]; [left | now right]. exists st'. split; [|assumption]. rewrite lookup_put_other; [assumption|].
         intros ->. rewrite Hl in Hs'. inversion Hs'; subst. congruence.
     + intros sid' st' Hl'. tsimp. rewrite chans_set_chan, length_upd. autorewrite with chat. destruct (Nat.eq_dec sid' sid) as [->|Hne].
-      * rewrite lookup_put_same in Hl'. inversion Hl'; subst st'. cbn. split; [assumption|]. split; [|assumption].
+      * rewrite lookup_put_same in Hl'. inversion Hl'; subst st'. cbn [s_ch s_rule got_more]. split; [assumption|]. split; [|assumption].
         rewrite chan_at_set_same by assumption. eauto.
       * rewrite lookup_put_other in Hl' by assumption. destruct (Istr _ _ Hl') as (Hc' & (p & Hp) & Hn). split; [assumption|]. split; [|assumption].
         destruct (Nat.eq_dec (s_ch st') (s_ch st)) as [E|Hne2].
@@ -344,28 +349,30 @@ Proof.
               O Hc Hn1 (no_a2_none _ _ Hn2) E1 Et Hq eq_refl Hnone) as K.
     apply K; [reflexivity | reflexivity |]. intros sid' r' c' _. tauto.
   - (* set capacity *) destruct H as [Hl Hd]. apply Hsoc; tsimp; try reflexivity; [now rewrite chans_set_chan, length_upd|].
-    intros c. destruct (Nat.eq_dec c (s_ch st)) as [->|Hne]; [|left; now rewrite chan_at_set_other].
-    destruct (inv_stream _ _ I _ _ Hl) as (Hc & _). rewrite chan_at_set_same by assumption. left.
-    (* grow changes neither cursors nor the log: same_or_closed is too strong a word here, so go through the frame directly *)
-    admit.
+    intros c. destruct (Nat.eq_dec c (s_ch st)) as [->|Hne]; [|rewrite chan_at_set_other by assumption; apply soc_refl].
+    destruct (inv_stream _ _ I _ _ Hl) as (Hc & _). rewrite chan_at_set_same by assumption. apply soc_grow.
   - apply Hsame; try reflexivity. tauto.
   - destruct H as [Hl Hd]. exact (own_bury s sid st O Hl).
   - (* async drop, subs, done *) pose proof (rm_apply_frame _ _ _ _ H3) as (_ & Estr & Eadd & _).
     assert (O1 : own_cur s1 /\ own_stream s1).
-    { apply Hsoc; try assumption; [|intros c; eapply rm_apply_chan; eassumption]. apply rm_apply_spec, rm_spec_tables in H3. tauto. }
+    { pose proof (fun c0 => rm_apply_chan _ _ _ _ c0 H3) as Hch. apply rm_apply_spec, rm_spec_tables in H3. destruct H3 as (_ & _ & _ & _ & _ & Hl0 & _).
+      apply Hsoc; [exact Hl0 | exact Hch | exact Estr | exact Eadd]. }
     assert (Hl1 : lookup (streams s1) sid = Some st) by now rewrite Estr.
     exact (own_bury s1 sid st O1 Hl1).
-  - (* wait *) pose proof (rm_apply_frame _ _ _ _ H3) as (_ & Estr & Eadd & _). apply Hsoc; tsimp; try assumption; [|intros c0; eapply rm_apply_chan; eassumption].
-    apply rm_apply_spec, rm_spec_tables in H3. tauto.
+  - (* wait *) pose proof (rm_apply_frame _ _ _ _ H3) as (_ & Estr & Eadd & _).
+    pose proof (fun c0 => rm_apply_chan _ _ _ _ c0 H3) as Hch. apply rm_apply_spec, rm_spec_tables in H3. destruct H3 as (_ & _ & _ & _ & _ & Hl & _).
+    apply Hsoc; [exact Hl | exact Hch | exact Estr | exact Eadd].
   - (* async drop, sender *)
     assert (O1 : own_cur (rm_sender s r c) /\ own_stream (rm_sender s r c)).
     { apply Hsoc; try reflexivity; [unfold rm_sender; now rewrite chans_set_chan, length_upd | intros c0; apply rm_sender_chan]. }
     exact (own_bury (rm_sender s r c) sid st O1 H).
-  - pose proof (rm_apply_frame _ _ _ _ H1) as (_ & Estr & Eadd & _). apply Hsoc; tsimp; try assumption; [|intros c0; eapply rm_apply_chan; eassumption].
-    apply rm_apply_spec, rm_spec_tables in H1. tauto.
-  - pose proof (rm_apply_frame _ _ _ _ H1) as (_ & Estr & Eadd & _). apply Hsoc; tsimp; try assumption; [|intros c0; eapply rm_apply_chan; eassumption].
-    apply rm_apply_spec, rm_spec_tables in H1. tauto.
+  - pose proof (rm_apply_frame _ _ _ _ H1) as (_ & Estr & Eadd & _).
+    pose proof (fun c0 => rm_apply_chan _ _ _ _ c0 H1) as Hch. apply rm_apply_spec, rm_spec_tables in H1. destruct H1 as (_ & _ & _ & _ & _ & Hl & _).
+    apply Hsoc; [exact Hl | exact Hch | exact Estr | exact Eadd].
+  - pose proof (rm_apply_frame _ _ _ _ H1) as (_ & Estr & Eadd & _).
+    pose proof (fun c0 => rm_apply_chan _ _ _ _ c0 H1) as Hch. apply rm_apply_spec, rm_spec_tables in H1. destruct H1 as (_ & _ & _ & _ & _ & Hl & _).
+    apply Hsoc; [exact Hl | exact Hch | exact Estr | exact Eadd].
   - apply Hsoc; tsimp; try reflexivity; [unfold rm_sender; now rewrite chans_set_chan, length_upd | intros c0; apply rm_sender_chan].
-Admitted.
+Qed.
 
 End G2.
